@@ -386,6 +386,12 @@ func TestC12L2(t *testing.T) {
 				pastPlans = append(pastPlans, func() error {
 					return l2.K.RegisterExecutorChangePlan(uint64(i+1), h, sdk.ValAddress(users[5].Addr).String(), "m", string(bz), "", newExecs)
 				})
+				if rapid.IntRange(0, 2).Draw(rt, "optimisticEndBlock") == 0 {
+					// the end of this block is first executed on a branch that is thrown away (optimistic execution of a
+					// proposal that is not the committed one), then for real
+					branchL2(l2, func(b *henv.L2) { _, _ = b.EndBlock() })
+					c.Class("L2/plan-height-executed-on-a-discarded-branch-first")
+				}
 				if _, err := l2.EndBlock(); err != nil {
 					fail("EndBlock with plan: %v", err)
 				}
